@@ -5,9 +5,9 @@ import PyramidModel.Gen.C13Skeleton
 /-! Driver for C13: one JSON case per line.
 
 {"op":"pipeline","xv":b,"base":n,"req":REQ}
-   REQ = {"tw":b,"route":b,"faults":[[point,kind],…],"regs":[[stage,"resp"|"fin",kind|null],…],"xx":kind|null,
+   REQ = {"tw":b,"route":b,"faults":[[point,kind],…],"regs":[[stage,"resp"|"fin",kind|null],…] (stage = point | ["cb",parent id]),"xx":kind|null,
           "xo":null|[kind,kind|null,otherRegistry],"subs":[REQ,…]}
-   -> {"tree":TREE}   TREE = {"own":[event,…],"out":"resp"|"plain"|"http","depth":n,"kids":[TREE,…]}
+   -> {"tree":TREE}   TREE = {"own":[event,…],"out":"resp"|"plain"|"http","depth":n,"kids":[TREE,…],"left":[resp,fin]}
 {"op":"exec","entry":name,"depth":n,"raises":[[site,k],…],"takes":[[site,k],…],"iters":[[site,k,n],…],"quiet":[site,…]}
    -> {"depth":n,"outcome":"normal"|"returned"|"raised","trace":[[site,depth,flag],…] (oldest first),
        "balanced":b,"opens":b,"closes":b}
@@ -72,12 +72,18 @@ partial def parseReq (j : Json) : Except String Req := do
     | _ => throw "bad fault"
   let regs ← (← arrField j "regs").mapM fun r => do
     match r with
-    | .arr #[.str st, .str kd, f] =>
+    | .arr #[stj, .str kd, f] =>
       let kind ← match kd with
         | "resp" => pure CbKind.resp
         | "fin" => pure CbKind.fin
         | _ => throw "bad callback kind"
-      pure (Reg.mk (← parsePoint st) kind (← optKind f))
+      let stage ← match stj with
+        | .str st => do pure (Pipeline.Stage.hook (← parsePoint st))
+        | .arr #[.str "cb", pj] => do
+          let pn : Nat ← fromJson? pj
+          pure (Pipeline.Stage.cb pn)
+        | _ => throw "bad stage"
+      pure (Reg.mk stage kind (← optKind f))
     | _ => throw "bad reg"
   let xx ← optKind (optField j "xx")
   let xo ← match optField j "xo" with
@@ -107,7 +113,8 @@ def outName : Outcome → String
   | .raised .http => "http"
 
 partial def trJson : Tr → Json
-  | .node own out d kids => Json.mkObj [
+  | .node own out d kids left => Json.mkObj [
+      ("left", toJson [left.1, left.2]),
       ("own", Json.arr (own.map evJson).toArray),
       ("out", Json.str (outName out)),
       ("depth", toJson d),
